@@ -135,9 +135,12 @@ fn eat_metric(parser: &mut Parser, recovery: TokenSet) -> bool {
             expect_variation_location_and_value(parser, recovery.add(Kind::RParen))
         }) {
             while !parser.at_eof() && !parser.matches(0, Kind::RParen) {
-                if !parser.in_node(AstKind::LocationValueNode, |parser| {
+                let before = parser.nth_range(0).start;
+                let found = parser.in_node(AstKind::LocationValueNode, |parser| {
                     eat_variation_location_and_value(parser, recovery.add(Kind::RParen))
-                }) {
+                });
+                // a malformed entry can be reported without consuming anything
+                if !found || parser.nth_range(0).start == before {
                     break;
                 }
             }
